@@ -136,6 +136,35 @@ def build(targets):
     return {'ok': rc == 0, 'log': log, 'errors': errors, 'wall_s': time.time() - t0, 'targets': list(targets)}
 
 
+def private_driver():
+    """copy of the freshly built driver, named by its content, that this process (and its workers) will use"""
+    import shutil
+    with Lock():
+        with open(paths.BUILT_DRIVER_EXE, 'rb') as f:
+            blob = f.read()
+        d = os.path.join(paths.LEAN_DIR, '.lake', 'verif-drivers')
+        os.makedirs(d, exist_ok=True)
+        dst = os.path.join(d, 'xdocdriver-' + hashlib.sha256(blob).hexdigest()[:16])
+        if not os.path.exists(dst):
+            tmp = dst + '.tmp%d' % os.getpid()
+            with open(tmp, 'wb') as f:
+                f.write(blob)
+            os.chmod(tmp, 0o755)
+            os.replace(tmp, dst)
+        now = time.time()
+        for fn in os.listdir(d):
+            fp = os.path.join(d, fn)
+            try:
+                if fp != dst and now - os.path.getmtime(fp) > 2 * 86400:
+                    os.remove(fp)
+            except OSError:
+                pass
+    os.utime(dst, None)
+    paths.DRIVER_EXE = dst
+    os.environ['XDOC_VERIF_DRIVER'] = dst
+    return dst
+
+
 def load_theorems(prop_id):
     """lean/theorems/<id>.json : list of {"name": fully qualified theorem name, "kind": full|partial|witness|pin}"""
     p = os.path.join(paths.LEAN_DIR, 'theorems', prop_id + '.json')
